@@ -28,15 +28,15 @@ def gen_rule(rng, family, finite_only=False):
     elif family == 1:
         spec = [[v, rng.pick([0, 1, 5, 10 ** 6])] for v in range(rng.pick([0, 0, 1, 3]))]
         d = {"res": res, "metric": rng.pick([0, 1]), "ctrl": rng.pick([0, 1]), "idx": rng.pick([-3, -1, 0, 0, 1, 3]),
-             "key": rng.pick([0, 0, 1]), "thr": rng.pick([0, 1, 5, 10 ** 6]), "maxq": rng.pick([0, 1, 2000]),
+             "key": rng.pick([0, 0, 1, 2]), "thr": rng.pick([0, 1, 5, 10 ** 6]), "maxq": rng.pick([0, 1, 2000]),
              "burst": rng.pick([0, 1, 10 ** 6]), "dur": rng.pick([0, 1, 1, 3, 600]), "cap": rng.pick([0, 0, 1, 100]),
              "spec": spec}
         toks = [1, d["res"], d["metric"], d["ctrl"], d["idx"], d["key"], d["thr"], d["maxq"], d["burst"], d["dur"], d["cap"],
                 len(spec)] + [x for p in spec for x in p]
     elif family == 2:
         d = {"res": res, "strategy": rng.pick([0, 1, 2]), "retry": rng.pick([0, 1, 1000, 600000]),
-             "minreq": rng.pick([0, 1, 5, 10 ** 6]), "interval": rng.pick([0, 1, 1000, 10000, 600000]),
-             "buckets": rng.pick([0, 1, 2, 3, 10, 7]), "maxrt": rng.pick([0, 1, 50, 10 ** 6]), "thr": thr()}
+             "minreq": rng.pick([0, 1, 5, 10 ** 6]), "interval": rng.pick([0, 1, 8, 1000, 1000, 10000, 600000]),
+             "buckets": rng.pick([0, 1, 2, 3, 10, 7, 4, 400, 700, 3000]), "maxrt": rng.pick([0, 1, 50, 10 ** 6]), "thr": thr()}
         if rng.chance(0.3):
             d["thr"] = rng.pick([0.0, 0.5, 1.0, 1.0000001, 2.0])
         toks = [2, d["res"], d["strategy"], d["retry"], d["minreq"], d["interval"], d["buckets"], d["maxrt"], f64_bits(d["thr"])]
@@ -76,7 +76,9 @@ def mutate(rng, d):
             e["res"] = {0: 1, 1: 2, 2: 1}[v]
         elif which in ("calc", "ref"):
             e[which] = (v + 1) % 3
-        elif which in ("ctrl", "rel", "key"):
+        elif which == "key":
+            e[which] = (v + 1) % 3
+        elif which in ("ctrl", "rel"):
             e[which] = 1 - v
         elif which == "metric":
             e[which] = (v + 1) % (2 if f == 1 else 5)
